@@ -23,8 +23,18 @@ type Sim struct {
 	former []*Validator
 	// abandoned: nodes that are no longer refreshed by their operator.
 	abandoned map[*NodeKeys]bool
+	vrfSitOut map[*NodeKeys]sitOut
+	rd        *roundDriver
 	// Profile tunes generation weights ("", "economy", "hostile", "registry", ...).
 	Profile string
+}
+
+// RoundOutcomes: what the scripted round driver (profile "rtheavy") did so far.
+func (s *Sim) RoundOutcomes() map[string]int {
+	if s.rd == nil {
+		return nil
+	}
+	return s.rd.Outcomes
 }
 
 // Logf appends to the trace.
@@ -107,6 +117,11 @@ type BlockGen struct {
 	Block *Block
 	Txs   []*TxDesc
 	Notes []string
+}
+
+type sitOut struct {
+	epoch beacon.EpochTime
+	out   bool
 }
 
 // GenBlock draws the next block: time gap, proposer, votes of the previous validator set (signers
@@ -210,6 +225,35 @@ func (s *Sim) GenBlock(t *rapid.T, view *View, maxTxs int) *BlockGen {
 			}
 		}
 	}
+	// VRF proofs: every node that has not yet proved for the current alpha does so (most of the time), once the
+	// submission window is open; the anchor node always does
+	if vs := view.VRFState(); s.W.Spec.VRF && vs != nil && b.Height > vs.SubmitAfter {
+		for i, ek := range s.W.Entities {
+			for j, nk := range ek.Nodes {
+				if vs.Pi[nk.ID.Public()] != nil || s.abandoned[nk] {
+					continue
+				}
+				// a node sits out a whole epoch now and then (its entity can then have a compute node with a proof and a
+				// validator node without one), and is sometimes just late
+				if d, ok := s.vrfSitOut[nk]; !ok || d.epoch != vs.Epoch {
+					if s.vrfSitOut == nil {
+						s.vrfSitOut = map[*NodeKeys]sitOut{}
+					}
+					s.vrfSitOut[nk] = sitOut{vs.Epoch, !(i == 0 && j == 0) && rapid.IntRange(0, 3).Draw(t, "vrfSitOut") == 0}
+				}
+				if s.vrfSitOut[nk].out {
+					continue
+				}
+				if !(i == 0 && j == 0) && rapid.IntRange(0, 4).Draw(t, "vrfLate") == 0 {
+					continue
+				}
+				if d := g.VRFProveTx(nk, vs); d != nil {
+					bg.Txs = append(bg.Txs, d)
+				}
+			}
+		}
+	}
+	bg.Txs = append(bg.Txs, s.roundTxs(t, view, g)...)
 	n := rapid.IntRange(0, maxTxs).Draw(t, "ntxs")
 	for i := 0; i < n; i++ {
 		bg.Txs = append(bg.Txs, g.Gen(t))
